@@ -19,7 +19,11 @@
 #include "common.hpp"
 #include "sched.hpp"
 
+#include <cerrno>
+#include <chrono>
 #include <csignal>
+#include <cstring>
+#include <poll.h>
 #include <map>
 #include <set>
 #include <sstream>
@@ -355,8 +359,10 @@ struct StepRec {
   unsigned alive;  // bitmask of unfinished threads before the step
 };
 
+// exact_len: the first exact_len steps follow sched_in literally (a behaviour of spec/OlcArt.tla, in
+// which a spinning thread may keep being scheduled); afterwards a spinning thread lets the others run
 void run_exec(const Scenario& sc, const std::vector<Switch>& sched_in, vh::Rng* rng, bool fine, Exec& ex,
-              std::vector<StepRec>& steps, long budget) {
+              std::vector<StepRec>& steps, long budget, long exact_len = 0) {
   g_ex = &ex;
   ex.sc = &sc;
   vs::Sched sched(fine ? vs::Sched::Policy(policy_fine) : vs::Sched::Policy(policy));
@@ -416,8 +422,12 @@ void run_exec(const Scenario& sc, const std::vector<Switch>& sched_in, vh::Rng* 
       ++si;
     }
     if (sched.finished(cur)) cur = lowest_unfinished(cur);
+    // leaving the literally replayed prefix: a forced schedule may have made a thread spin many times while
+    // the lock holder was not scheduled, so the spin counts say nothing about progress yet
+    if (exact_len > 0 && pos == exact_len)
+      for (int t = 0; t < n; ++t) sched.tcb(t).spin_streak = 0;
     // a thread waiting in a spin loop lets the others run (not a preemption)
-    if (sched.tcb(cur).spin_streak > 0) {
+    if (pos >= exact_len && sched.tcb(cur).spin_streak > 0) {
       int other = -1;
       bool all_wait = true;
       int min_streak = 1 << 30;
@@ -626,6 +636,7 @@ int main(int argc, char** argv) {
   std::uint64_t seed = 1;
   bool fine = false;
   const char* one_sched = nullptr;
+  const char* sched_file = nullptr;  // one schedule per line: "pos:thread,...;<exact_len>"
   long budget = 4000;
   long max_exec = 200000;
   bool keep_all = false;
@@ -638,6 +649,7 @@ int main(int argc, char** argv) {
     else if (a == "--seed" && i + 1 < argc) seed = std::strtoull(argv[++i], nullptr, 10);
     else if (a == "--fine") fine = true;
     else if (a == "--sched" && i + 1 < argc) one_sched = argv[++i];
+    else if (a == "--sched-file" && i + 1 < argc) sched_file = argv[++i];
     else if (a == "--budget" && i + 1 < argc) budget = std::atol(argv[++i]);
     else if (a == "--max-exec" && i + 1 < argc) max_exec = std::atol(argv[++i]);
     else if (a == "--keep-all") keep_all = true;
@@ -653,6 +665,7 @@ int main(int argc, char** argv) {
     std::unordered_set<std::uint64_t> seen;
     long sc_exec = 0, sc_distinct = 0;
     // run one execution in a forked child; returns events text and step records
+    long exact_len = 0;
     auto run_one = [&](const std::vector<Switch>& sw, vh::Rng* rng, std::string& events, std::vector<StepRec>& steps) {
       int pe[2], ps[2];
       if (pipe(pe) != 0 || pipe(ps) != 0) std::abort();
@@ -666,25 +679,27 @@ int main(int argc, char** argv) {
         static Exec* sex = nullptr;
         Exec ex;
         sex = &ex;
+        // async-signal-safe: no allocation in the handlers (a crash inside malloc/free -- glibc aborting on a
+        // corrupted heap -- holds the arena lock; a handler that allocates would wait for it for ever)
         auto die = [](int sig) {
-          if (sex) {
-            std::string out = sex->events + "{\"e\":\"crash\",\"sig\":" + std::to_string(sig) + "}\n";
-            (void)!write(3, out.data(), out.size());
-          }
+          if (sex) (void)!write(3, sex->events.data(), sex->events.size());
+          const char* tail = sig == SIGABRT ? "{\"e\":\"crash\",\"sig\":6}\n"
+                             : sig == SIGSEGV ? "{\"e\":\"crash\",\"sig\":11}\n"
+                                              : "{\"e\":\"crash\",\"sig\":7}\n";
+          (void)!write(3, tail, std::strlen(tail));
           _exit(70);
         };
         std::signal(SIGABRT, die);
         std::signal(SIGSEGV, die);
         std::signal(SIGBUS, die);
         std::signal(SIGALRM, [](int) {
-          if (sex) {
-            std::string out = sex->events + "{\"e\":\"hang\"}\n";
-            (void)!write(3, out.data(), out.size());
-          }
+          if (sex) (void)!write(3, sex->events.data(), sex->events.size());
+          static const char tail[] = "{\"e\":\"hang\"}\n";
+          (void)!write(3, tail, sizeof tail - 1);
           _exit(72);
         });
         std::vector<StepRec> st;
-        run_exec(sc, sw, rng, fine, ex, st, budget);
+        run_exec(sc, sw, rng, fine, ex, st, budget, exact_len);
         (void)!write(3, ex.events.data(), ex.events.size());
         std::string so;
         for (const auto& r : st) so += std::to_string(r.ran) + ":" + std::to_string(r.alive) + " ";
@@ -694,11 +709,29 @@ int main(int argc, char** argv) {
       }
       close(pe[1]);
       close(ps[1]);
-      auto slurp = [](int fd) {
+      // watchdog on the parent's side as well: a child that neither finishes nor dies within 45 s is killed
+      const auto deadline = std::chrono::steady_clock::now() + std::chrono::seconds(45);
+      auto slurp = [&](int fd) {
         std::string s;
         char b[65536];
-        ssize_t k;
-        while ((k = read(fd, b, sizeof b)) > 0) s.append(b, static_cast<std::size_t>(k));
+        while (true) {
+          struct pollfd pfd {fd, POLLIN, 0};
+          const auto left = std::chrono::duration_cast<std::chrono::milliseconds>(deadline - std::chrono::steady_clock::now()).count();
+          const int pr = poll(&pfd, 1, left > 0 ? static_cast<int>(left) : 0);
+          if (pr == 0) {
+            kill(pid, SIGKILL);
+            s.resize(s.rfind('\n') == std::string::npos ? 0 : s.rfind('\n') + 1);  // drop a partial line
+            if (s.find("\"hang\"") == std::string::npos && s.find("\"crash\"") == std::string::npos) s += "{\"e\":\"hang\"}\n";
+            break;
+          }
+          if (pr < 0) {
+            if (errno == EINTR) continue;
+            break;
+          }
+          const ssize_t k = read(fd, b, sizeof b);
+          if (k <= 0) break;
+          s.append(b, static_cast<std::size_t>(k));
+        }
         close(fd);
         return s;
       };
@@ -732,15 +765,38 @@ int main(int argc, char** argv) {
       std::fwrite(ev2.data(), 1, ev2.size(), evf);
     };
 
-    if (one_sched != nullptr) {
+    auto parse_sched = [](const std::string& text) {
       std::vector<Switch> sw;
-      std::istringstream is(one_sched);
+      std::istringstream is(text);
       std::string tok;
       while (std::getline(is, tok, ',')) {
         const auto c = tok.find(':');
         if (c == std::string::npos) continue;
         sw.push_back({std::atol(tok.substr(0, c).c_str()), std::atoi(tok.substr(c + 1).c_str())});
       }
+      return sw;
+    };
+    if (sched_file != nullptr) {
+      // replay of specification behaviours: every line is executed (and kept) in file order
+      FILE* sf = std::fopen(sched_file, "r");
+      if (!sf) return 2;
+      char buf[65536];
+      while (std::fgets(buf, sizeof buf, sf)) {
+        std::string line(buf);
+        while (!line.empty() && (line.back() == '\n' || line.back() == '\r')) line.pop_back();
+        if (line.empty()) continue;
+        const auto semi = line.find(';');
+        exact_len = semi == std::string::npos ? 0 : std::atol(line.c_str() + semi + 1);
+        const auto sw = parse_sched(line.substr(0, semi));
+        std::string evs;
+        std::vector<StepRec> st;
+        run_one(sw, nullptr, evs, st);
+        emit(evs, sw);
+      }
+      std::fclose(sf);
+      exact_len = 0;
+    } else if (one_sched != nullptr) {
+      const auto sw = parse_sched(one_sched);
       std::string evs;
       std::vector<StepRec> st;
       run_one(sw, nullptr, evs, st);
